@@ -36,6 +36,7 @@ public:
 
 	SmartObject(){
 		_p = new SmartObject_;
+		++_p->rc; // this handle counts like any other
 	}
 	SmartObject(const SmartObject& n)
 	{
